@@ -110,3 +110,7 @@ func Census(bubbleOnly bool) []GoroutineState {
 	}
 	return out
 }
+
+// Quiesce blocks until every other goroutine of the current bubble is durably
+// blocked (synctest.Wait); it does not advance the virtual clock.
+func Quiesce() { synctest.Wait() }
